@@ -75,7 +75,7 @@ def generate_code(objects, options: dict | None = None, prefix: str = "vf", obje
             names.append(("expression", ffcx.naming.expression_name(o, prefix)))
         else:
             names.append(("element", None))
-    return code[0], code[1], names
+    return code[0], (code[1] if len(code) > 1 else ""), names
 
 
 def _decl(names):
